@@ -762,7 +762,25 @@ def sqrt(p):
         if q is not None:
             return q
     if not is_nonneg(p) and not (NONNEG_ORACLE and NONNEG_ORACLE(p)):
-        raise Unmodelled("sqrt of a value not provably non-negative: %s" % p.short())
+        # not proved: refute by sampling, else go on under a *recorded* assumption (reported with the evidence; the real
+        # code returns NaN where it fails, so nothing downstream would hold there anyway)
+        import random as _random
+        rnd = _random.Random(1)
+        names = sorted(free_names(p))
+        for t in range(60):
+            env = {n: rnd.gauss(0, (0.5, 1.0, 3.0, 8.0)[t % 4]) for n in names}
+            for a_ in p.atoms(deep=True):
+                at_ = _ATOMS[a_]
+                if at_.kind == "UF" and len(at_.key) > 2 and at_.key[2] == "pos":
+                    env[at_.key[1]] = abs(env.get(at_.key[1], 1.0)) + 0.1
+            try:
+                v = evalf(p, env)
+            except (ValueError, ZeroDivisionError, OverflowError, KeyError):
+                continue
+            v = v.real if isinstance(v, complex) else v
+            if v < -1e-9 * (1 + abs(v)):
+                raise Unmodelled("sqrt of a value that is negative for some parameter values: %s" % p.short())
+        GENERIC_POSITION.add("sqrt argument >= 0 at 60 sampled points, not proved: " + p.short(100))
     a = _mk("R", (p.key(),), args=(p,), pos=is_pos(p), nonneg=True)
     return P.of_atom(a)
 
